@@ -90,6 +90,7 @@ fn float_values<T: Flt>(level: u32) -> Vec<u64> {
         }
     }
     v.push(0);
+    v.extend(harness::valfam::break_values::<T>());
     v.sort_unstable();
     v.dedup();
     let n = v.len();
@@ -255,6 +256,14 @@ fn main() {
             go::<f64>(&rep, &p);
         } else if p[0] == "f32" {
             go::<f32>(&rep, &p);
+        } else if p.len() > 1 && p[1] == "int" {
+            // integer cases are few: re-run the whole family of the type
+            fn goi<T: Int>(rep: &Report, cli: &Cli, name: &str) {
+                if T::NAME == name {
+                    run_ints::<T>(rep, cli);
+                }
+            }
+            harness::for_each_int_type!(goi, &rep, &cli, p[0]);
         }
         finish(&rep, &cli);
     }
